@@ -97,8 +97,14 @@ def g_impl(gc):
     g = gc["g"]
     G = GeneralQSM(pl=jnp.asarray(g["pl"]), ql=jnp.asarray(g["ql"]), pu=jnp.asarray(g["pu"]),
                    qu=jnp.asarray(g["qu"]), a=jnp.asarray(g["a"]), idx=jnp.asarray(g["idx"]))
+    # right-hand sides of rank 1, 3 and 4 as well (the reshape wrapper of general.py)
+    rngx = np.random.default_rng(g["n1"] * 131 + g["n2"] * 17 + g["m"])
+    extra = {}
+    for tail in ((), (2, 3), (3, 3), (2, 1, 3)):
+        xr = rngx.integers(-3, 4, size=(g["n2"],) + tail).astype(float)
+        extra[str(tail)] = (xr, np.asarray(G.matmul(jnp.asarray(xr))), np.asarray(G @ jnp.asarray(xr)))
     return dict(mm=np.asarray(G.matmul(jnp.asarray(gc["x"]))), dense=np.asarray(G.matmul(jnp.eye(g["n2"]))),
-                shape=tuple(G.shape))
+                shape=tuple(G.shape), extra=extra)
 
 
 def run(chk):
@@ -180,6 +186,12 @@ def run(chk):
             if got.shape != want.shape or not np.array_equal(got, want):
                 oracle_bad.append(dict(op=name, g=gen.spec_json(g), x=gc["x"].tolist(),
                                        expected=want.tolist(), observed=got.tolist()))
+        for tail, (xr, got1, got2) in im["extra"].items():
+            want = np.tensordot(M, xr, axes=(1, 0))
+            for nm_, got in (("general.matmul", got1), ("general @", got2)):
+                if got.shape != want.shape or not np.array_equal(got, want):
+                    oracle_bad.append(dict(op=f"{nm_} with a right-hand side of trailing shape {tail}", g=gen.spec_json(g), x=xr.tolist(),
+                                           expected=want.tolist(), observed=got.tolist()))
         if im["shape"] != (g["n1"], g["n2"]):
             oracle_bad.append(dict(op="general.shape", g=gen.spec_json(g), expected=[g["n1"], g["n2"]],
                                    observed=list(im["shape"])))
